@@ -157,6 +157,16 @@ func All(seed int64) []Input {
 			}
 		}
 	}
+	// the same under other names: the cipher text of the closing line end differs from font to font (a stray
+	// cipher byte that happens to look like a number would vanish in the cleartomark of the trailer)
+	for k, nm := range []string{"IndepA", "IndepBB", "IndepCCC"} {
+		sp := *spec
+		sp.FontName = nm
+		sp.Private = append(append([]string{}, spec.Private...), fmt.Sprintf("/BlueShift %d def", k+5)) // inside the encrypted portion
+		if data, err := indep.WriteFont(&sp, indep.Layout{Cont: "pfa", LenIV: 4, Names: "RD", Enc: "std", Eol: "crlf"}); err == nil {
+			add(fmt.Sprintf("font-indep-pfa-crlf-%d", k+2), "type1", data)
+		}
+	}
 	// charstrings that lean on the reader's scratch state (OtherSubrs results, flex points): the two
 	// malformed ones come first, so that a run over the corpus meets them once before and once after
 	// the fonts that fill that state (a leak from one read into the next changes what they give)
